@@ -9,6 +9,7 @@ import (
 	"fmt"
 	"sort"
 	"strconv"
+	"strings"
 
 	"verif/c10/lib"
 )
@@ -54,6 +55,101 @@ type gen struct {
 	names    int
 	lastStd  *GSig // last standard signal generated in this document (twins differ from it in one field)
 	lastSize int
+	// (longer-id message, shorter-id message, digits): decimal(longer id) = digits ++ decimal(shorter id)
+	idPairs      []idPair
+	forceComment map[*GSig]bool
+}
+
+type idPair struct {
+	long, short *GMsg
+	digits      string
+}
+
+// caseVariant returns a spelling of u that differs from it only by letter case ("" when u has no letter)
+func caseVariant(u string, how int) string {
+	var v string
+	switch how {
+	case 0:
+		v = strings.ToUpper(u)
+	case 1:
+		v = strings.ToLower(u)
+	default: // flip the first letter only
+		b := []byte(u)
+		for i, c := range b {
+			if c >= 'a' && c <= 'z' {
+				b[i] = c - 32
+				break
+			}
+			if c >= 'A' && c <= 'Z' {
+				b[i] = c + 32
+				break
+			}
+		}
+		v = string(b)
+	}
+	if v == u {
+		v = strings.ToUpper(u)
+	}
+	if v == u {
+		v = strings.ToLower(u)
+	}
+	if v == u {
+		return ""
+	}
+	return v
+}
+
+// digit-extended names: for two messages whose ids are related by decimal(long) = digits ++ decimal(short), a signal
+// of the short-id message is renamed to <name of a signal of the long-id message> ++ digits, so that the two
+// (message id, signal name) pairs are distinct but their separator-less concatenations coincide; both get a comment
+func (g *gen) digitExtendedNames() {
+	d := g.d
+	for _, p := range g.idPairs {
+		if len(p.long.Sigs) == 0 || len(p.short.Sigs) == 0 {
+			continue
+		}
+		sa := p.long.Sigs[g.r.Below(len(p.long.Sigs))]
+		sb := p.short.Sigs[g.r.Below(len(p.short.Sigs))]
+		nn := sa.Name + p.digits
+		taken := false
+		for _, m := range d.Msgs {
+			if m.Name == nn {
+				taken = true
+			}
+		}
+		for _, s := range p.short.Sigs {
+			if s.Name == nn {
+				taken = true
+			}
+		}
+		if taken {
+			continue
+		}
+		old := sb.Name
+		for i := range d.ValEncs {
+			if d.ValEncs[i].Msg == p.short.ID && d.ValEncs[i].Sig == old {
+				d.ValEncs[i].Sig = nn
+			}
+		}
+		for i := range d.ExtMuxes {
+			if d.ExtMuxes[i].Msg == p.short.ID {
+				if d.ExtMuxes[i].Muxor == old {
+					d.ExtMuxes[i].Muxor = nn
+				}
+				if d.ExtMuxes[i].Muxed == old {
+					d.ExtMuxes[i].Muxed = nn
+				}
+			}
+		}
+		sb.Name = nn
+		if g.r.Chance(2, 3) {
+			g.forceComment[sa] = true
+		}
+		if g.r.Chance(2, 3) {
+			g.forceComment[sb] = true
+		}
+		g.tag("sig-name-digit-extended-across-messages")
+	}
 }
 
 func (g *gen) name(prefix string) string {
@@ -454,6 +550,13 @@ func (g *gen) emitNode(m *GMsg, n *lnode, be bool, parent *lnode, groups []int, 
 				g.tag("sig-twin-unit")
 			}
 		}
+		// the unit of an earlier standard signal of the document in another letter case ("mV" / "MV" are two units)
+		if l := g.lastStd; l != nil && g.r.Chance(1, 6) {
+			if v := caseVariant(l.Unit, g.r.Below(3)); v != "" {
+				s.Unit = v
+				g.tag("sig-unit-case-variant")
+			}
+		}
 		g.lastStd = s
 		g.tag("sig-standard")
 	}
@@ -471,7 +574,7 @@ var attrTypeNames = []string{"int", "float", "string", "enum", "hex"}
 
 // Generate builds one document.
 func Generate(r *lib.Rng) *GDoc {
-	g := &gen{r: r, d: &GDoc{Tags: map[string]int{}}}
+	g := &gen{r: r, d: &GDoc{Tags: map[string]int{}}, forceComment: map[*GSig]bool{}}
 	d := g.d
 	nn := r.Below(7)
 	for i := 0; i < nn; i++ {
@@ -504,6 +607,18 @@ func Generate(r *lib.Rng) *GDoc {
 			}
 			if !usedID[m.ID] {
 				break
+			}
+		}
+		if len(d.Msgs) > 0 && r.Chance(1, 4) { // an id whose decimal text is that of an earlier id with digits in front
+			p := d.Msgs[r.Below(len(d.Msgs))]
+			dg := strconv.Itoa(1 + r.Below(9))
+			if r.Chance(1, 3) {
+				dg += strconv.Itoa(r.Below(10))
+			}
+			if v, err := strconv.ParseUint(dg+strconv.FormatUint(uint64(p.ID), 10), 10, 32); err == nil && !usedID[uint32(v)] {
+				m.ID = uint32(v)
+				g.idPairs = append(g.idPairs, idPair{m, p, dg})
+				g.tag("msg-id-digit-prefixed")
 			}
 		}
 		usedID[m.ID] = true
@@ -547,6 +662,7 @@ func Generate(r *lib.Rng) *GDoc {
 		}
 		d.Msgs = append(d.Msgs, m)
 	}
+	g.digitExtendedNames()
 	// comments
 	if r.Chance(1, 2) {
 		d.Comments = append(d.Comments, GComment{Kind: 0, Text: "bus " + g.name("c")})
@@ -561,7 +677,7 @@ func Generate(r *lib.Rng) *GDoc {
 			d.Comments = append(d.Comments, GComment{Kind: 2, Msg: m.ID, Text: "message " + m.Name + " comment"})
 		}
 		for _, s := range m.Sigs {
-			if r.Chance(1, 4) {
+			if c := r.Chance(1, 4); c || g.forceComment[s] {
 				d.Comments = append(d.Comments, GComment{Kind: 3, Msg: m.ID, Sig: s.Name, Text: "signal " + s.Name})
 			}
 		}
